@@ -6,8 +6,9 @@ from harness.report import Report
 from harness.terms import jkey
 
 
-def consts(site, wf, sup, shared=False):
-    dopts = ([["field", "type"]] if wf else []) + [["include_subtypes", True]] + ([["include_supertypes", True]] if sup else []) + ([["shared", "D1"]] if shared else [])
+def consts(site, wf, sup, shared=False, tagger="none"):
+    dopts = ([["field", "type"]] if wf else []) + [["include_subtypes", True]] + ([["include_supertypes", True]] if sup else []) + ([["shared", "D1"]] if shared else []) \
+        + ([["tagger", tagger]] if tagger != "none" else [])
     root = ["dc", "R", [["v", ["int"], ["req"], []]],
             [["classvars", [["type", ["str", "r"]]]]] + ([["discriminator", dopts], ["discr_field", "type"]] if site == "config" else [])]
     holder = ["dc", "HD", [["f", ["discr", root, dopts], ["req"], []]], []]
@@ -17,11 +18,11 @@ def consts(site, wf, sup, shared=False):
     return dopts, root, holder
 
 
-def histories(rep, wd, combos, maxlen, faults=False, clause=None, label_extra="", nested=False, shared=False):
+def histories(rep, wd, combos, maxlen, faults=False, clause=None, label_extra="", nested=False, shared=False, tagger="none"):
     """TLC enumerates every history of MC_C12 for the given sites; each is replayed against the real library"""
     for site, wf, sup in combos:
         ml = maxlen - 1 if site == "pair" else maxlen          # the pair site has 16 inputs x 4 definitions: one step shorter
-        cfg = core.cfg_text("MC_C12.cfg", Site=f'"{site}"', WithField=wf, Supertypes=sup, MaxLen=ml, Faults=faults, Nested=nested, Shared=shared)
+        cfg = core.cfg_text("MC_C12.cfg", Site=f'"{site}"', WithField=wf, Supertypes=sup, MaxLen=ml, Faults=faults, Nested=nested, Shared=shared, Tagger=f'"{tagger}"')
         label = f"MC_C12 site={site} field={wf} supertypes={sup} nested={nested} len<={ml}{label_extra}: VariantChoice RegistrySound NoInheritedTag"
         if faults:
             r = core.run_mc_with_table("MC_C12", wd, [(["int"], [["str", "bad"]])], cfg=cfg, rep=rep, label=label, timeout=3000)
@@ -31,7 +32,7 @@ def histories(rep, wd, combos, maxlen, faults=False, clause=None, label_extra=""
         if r.violated:
             raise tlc.MachineryError(f"model property violated on the reference spec: {r.violated}")
         behs = [p[1] for p in r.printed if p[0] == "beh"]
-        dopts, root, holder = consts(site, wf, sup, shared)
+        dopts, root, holder = consts(site, wf, sup, shared, tagger)
         agg = behave.replay_c12(site, root, holder, dopts, behs)
         rep.count(agg["events"])
         rep.cov["traces_validated_against_impl"] += agg["behaviours"]
@@ -66,6 +67,10 @@ def run(prop, tier, seed):
     histories(rep, wd, combos, maxlen)
     # one Discriminator object shared with an unrelated class's Config (defined at any point of the history)
     histories(rep, wd, [("codec", True, True), ("field", True, True)], maxlen, shared=True, label_extra=" shared Discriminator object")
+    # variant_tagger_fn: the tag of a class is what the function returns for it (one tag / a list of tags)
+    for tg in ("one", "two"):
+        histories(rep, wd, [("field", True, False), ("codec", True, True)] + ([("config", True, False)] if tg == "two" else []), maxlen - 1, tagger=tg,
+                  label_extra=f" variant_tagger_fn={tg}")
     # two dispatch levels: a variant that declares its own class-level discriminator on another field
     histories(rep, wd, [(s, True, False) for s in ("config", "field", "codec")], maxlen, nested=True, label_extra=" nested levels")
     if tier != "quick":
